@@ -65,8 +65,8 @@ def run_histories(it, histories, ticks=None):
                 res.append(None)
                 continue
             body = o.replace("%Z", "")
-            phases = re.findall(r"\[((?:\s*\(-?\d+,\s*-?\d+\);?)*)\s*\]", body)
-            res.append([[(int(a), int(c)) for a, c in re.findall(r"\((-?\d+),\s*(-?\d+)\)", ph)] for ph in phases])
+            phases = re.findall(r"\[((?:\s*\(\s*-?\d+\s*,\s*-?\d+\s*\);?)*)\s*\]", body)
+            res.append([[(int(a), int(c)) for a, c in re.findall(r"\(\s*(-?\d+)\s*,\s*(-?\d+)\s*\)", ph)] for ph in phases])
     names = [o[0] for o in meta["outputs"]]
     return res, names, T
 
